@@ -499,7 +499,11 @@ impl Snap {
             if raw_type_id == TYPE_ID_EX {
                 let item_data = self.raw.item_from_offset(offset.clone());
                 let uuid = item_data_to_uuid(warn, item_data).ok_or(Error::InvalidUuidType)?;
-                if self.extended_types.insert(uuid, raw_type_id).is_some() {
+                if self
+                    .extended_types
+                    .insert(uuid, key_to_id(item_key))
+                    .is_some()
+                {
                     return Err(Error::DuplicateUuidType);
                 }
             } else if raw_type_id >= OFFSET_EXTENDED_TYPE_ID {
